@@ -1319,19 +1319,22 @@ impl MdkStorageProvider for MdkSqliteStorage {
         #[cfg(feature = "verif-hooks")]
         verif::tick(verif::Point::Conn);
         let conn = self.connection.lock().unwrap();
+        // SQLite integers are signed: a cut-off above their range is older than nothing when
+        // cast (it wraps to a negative number); every stored time is below it.
+        let min_timestamp = i64::try_from(min_timestamp).unwrap_or(i64::MAX);
         // The contract (and the memory backend) report the number of snapshots pruned, not
         // the number of rows a snapshot happens to consist of.
         let pruned: i64 = conn
             .query_row(
                 "SELECT COUNT(*) FROM (SELECT DISTINCT snapshot_name, group_id
                  FROM group_state_snapshots WHERE created_at < ?)",
-                rusqlite::params![min_timestamp as i64],
+                rusqlite::params![min_timestamp],
                 |row| row.get(0),
             )
             .map_err(|e| MdkStorageError::Database(e.to_string()))?;
         conn.execute(
             "DELETE FROM group_state_snapshots WHERE created_at < ?",
-            rusqlite::params![min_timestamp as i64],
+            rusqlite::params![min_timestamp],
         )
         .map_err(|e| MdkStorageError::Database(e.to_string()))?;
         Ok(pruned as usize)
